@@ -172,11 +172,11 @@ class Universe:
         for pool, attr in (('implant', A.implantness), ('booster', A.boosterness)):
             for tid in self.ids[pool]:
                 at = {}
-                pick(at, attr, (1, 1, 2), 0.9)
+                pick(at, attr, (0, 1, 1, 2), 0.9)
                 mk(tid, group_id=81, category_id=TypeCategoryId.implant, attrs=at, required_skills=rq())
         for tid in self.ids['subsystem']:
             at = {}
-            pick(at, A.subsystem_slot, (125, 125, 126), 0.9)
+            pick(at, A.subsystem_slot, (0, 125, 125, 126), 0.9)
             mk(tid, group_id=82, category_id=TypeCategoryId.subsystem, attrs=at,
                effects=[ef[int(EffectId.subsystem)]] if rnd.random() < 0.9 else [])
         for tid in self.ids['fighter']:
